@@ -149,14 +149,20 @@ def x_tree(ctx, case):
             snap_kw = {k: v for k, v in kw.items() if k != "test_tags"}
             before = datetime.datetime.now(UTC)
             npos = op.get("npos", 0) if positional_ok else 0
-            if npos:
-                f0 = full(kw)
-                f0["test_tags"] = kw.get("test_tags")
-                order = recorders.STREAM_FIELDS
-                args = [f0[k] for k in order[:npos]]
-                root.status(*args, **{k: v for k, v in kw.items() if k not in order[:npos]})
-            else:
-                root.status(**kw)
+            try:
+                if npos:
+                    f0 = full(kw)
+                    f0["test_tags"] = kw.get("test_tags")
+                    order = recorders.STREAM_FIELDS
+                    args = [f0[k] for k in order[:npos]]
+                    root.status(*args, **{k: v for k, v in kw.items() if k not in order[:npos]})
+                else:
+                    root.status(**kw)
+                refused = None
+            except Exception as e:  # noqa
+                refused = e
+            ctx.check(refused is None, "decorator.accepts-the-call",
+                      lambda: {"event": op, "error": repr(refused), **detail()})
             after = datetime.datetime.now(UTC)
             windows.append((before, after))
             ok = (kw.get("test_tags") is caller_tags and type(caller_tags) is snap_type
